@@ -14,6 +14,7 @@ EXTENDS ReqRes, Json
 CONSTANTS GenLen,      \* number of API calls of a behaviour
           GenLean,     \* TRUE: only the calls needed to steer (witness search)
           GenMinimal,  \* TRUE: copy API only, the client never looks at responses (formula search)
+          GenDeath,    \* TRUE: the lean call set also drops servers (witnesses of expired connections)
           WitnessMax   \* witnesses printed per trap and worker
 
 VARIABLE hist
@@ -23,7 +24,16 @@ gview == view
 Step(a, c, s, n, j) == [a |-> a, c |-> c, s |-> s, n |-> n, j |-> j, h |-> 0]
 G(a, c, s, n, j, A) == A /\ hist' = Append(hist, Step(a, c, s, n, j))
 
-RegInit == TLCSet(11, 0) /\ TLCSet(12, 0) /\ TLCSet(13, 0) /\ TLCSet(14, 0)
+RegInit == /\ TLCSet(11, 0) /\ TLCSet(12, 0) /\ TLCSet(13, 0) /\ TLCSet(14, 0)
+           /\ TLCSet(15, 0) /\ TLCSet(16, 0) /\ TLCSet(17, 0) /\ TLCSet(18, 0)
+
+\* lean call set: a disconnect hint is only of interest on a channel that a request / active request of an
+\* EARLIER owner of that channel still refers to
+HintUseful(c, n) ==
+    \E p \in pend[c] : p.n = n /\ \E s \in Servers :
+        /\ rst[s][c][p.ch] = [n |-> n, hint |-> FALSE]
+        /\ \/ \E a \in areq[s] : a.c = c /\ a.ch = p.ch /\ a.n < n
+           \/ \E e \in Range(reqq[c][s]) : e.ch = p.ch /\ e.n < n
 GenInit == Init /\ hist = <<>> /\ RegInit
 
 ClientCalls(c) ==
@@ -37,6 +47,7 @@ ClientCalls(c) ==
                \/ G("DropRequest", c, 0, n, 0, DropRequest(c, n))
                \/ G("ReceiveResponse", c, 0, n, 0, ReceiveResponse(c, n))
           \/ \E r \in held[c] : G("DropResponse", c, r.s, r.n, r.j, DropResponse(c, r.s, r.n, r.j))
+          \/ \E n \in 1..nextn[c] : (GenLean => HintUseful(c, n)) /\ G("DisconnectHint", c, 0, n, 0, DisconnectHint(c, n))
     \/ /\ ~GenLean
        /\ \/ G("DropClient", c, 0, 0, 0, DropClient(c))
           \/ G("UpdateClient", c, 0, 0, 0, UpdateClient(c))
@@ -44,7 +55,6 @@ ClientCalls(c) ==
           \/ \E n \in 1..nextn[c] :
                \/ G("IsConnectedP", c, 0, n, 0, IsConnectedP(c, n))
                \/ G("HasResponse", c, 0, n, 0, HasResponse(c, n))
-               \/ G("DisconnectHint", c, 0, n, 0, DisconnectHint(c, n))
 
 ServerCalls(s) ==
     \/ G("CreateServer", 0, s, 0, 0, CreateServer(s))
@@ -52,6 +62,7 @@ ServerCalls(s) ==
     \/ \E a \in areq[s] :
          \/ G("SendCopyResponse", a.c, s, a.n, 0, SendCopyResponse(s, a.c, a.n))
          \/ G("DropActive", a.c, s, a.n, 0, DropActive(s, a.c, a.n))
+    \/ (GenLean /\ GenDeath) /\ G("DropServer", 0, s, 0, 0, DropServer(s))
     \/ /\ ~GenLean
        /\ \/ G("DropServer", 0, s, 0, 0, DropServer(s))
           \/ G("UpdateServer", 0, s, 0, 0, UpdateServer(s))
@@ -112,6 +123,34 @@ ServerSaturated ==
         /\ \E a \in areq[s] : a.c = c
                /\ Emit(14, "server-saturated", [s |-> s, c |-> c, na |-> a.n, nb |-> 0, np |-> 0, nl |-> 0])
 
+\* request B owns the channel of the earlier request A, B carries the disconnect hint, and the server still
+\* holds the active request of A (dropping it must not touch B's stream) ...
+HintStaleActive ==
+    \E s \in Servers : \E a \in areq[s] : \E p \in pend[a.c] :
+        /\ p.ch = a.ch /\ p.n > a.n
+        /\ rst[s][a.c][a.ch] = [n |-> p.n, hint |-> TRUE]
+        /\ \/ \E e \in Range(reqq[a.c][s]) : e.n = p.n
+           \/ \E b \in areq[s] : b.c = a.c /\ b.n = p.n
+        /\ Emit(15, "hint-stale-active", [s |-> s, c |-> a.c, na |-> a.n, nb |-> p.n, np |-> 0, nl |-> 0])
+\* ... or A is still queued in front of B (the server discards A when it receives next)
+HintStaleQueued ==
+    \E s \in Servers, c \in Clients : \E p \in pend[c] :
+        /\ rst[s][c][p.ch] = [n |-> p.n, hint |-> TRUE]
+        /\ \E i, k \in 1..Len(reqq[c][s]) :
+             /\ i < k /\ reqq[c][s][i].ch = p.ch /\ reqq[c][s][i].n < p.n /\ reqq[c][s][k].n = p.n
+             /\ Emit(16, "hint-stale-queued", [s |-> s, c |-> c, na |-> reqq[c][s][i].n, nb |-> p.n, np |-> 0, nl |-> 0])
+\* the server is gone; of its connection the client still has an undelivered response on one channel (pd), a
+\* borrowed response on another one (pb), and a pending response it can poll without getting anything (pp)
+ExpiredSplit(reg, tag, lowData) ==
+    \E c \in AliveC, s \in Servers :
+        /\ sst[s] = "dead" /\ s \in Storage(c)
+        /\ \E pd, pb, pp \in pend[c] :
+             /\ pd.ch # pb.ch /\ (lowData <=> pd.ch < pb.ch)
+             /\ rq[s][c][pd.ch] # <<>> /\ HeldCount(c, s, pd.ch) = 0
+             /\ HeldCount(c, s, pb.ch) > 0
+             /\ rq[s][c][pp.ch] = <<>> /\ HeldCount(c, s, pp.ch) < MB
+             /\ Emit(reg, tag, [s |-> s, c |-> c, na |-> pd.n, nb |-> pb.n, np |-> pp.n, nl |-> 0])
+
 \* ---- the closed chunk formulas (C08): a refutation stops TLC and prints the program that leads there ---
 FormulaReq ==
     ChunksSufficeReq
@@ -126,4 +165,7 @@ FormulaResp ==
 
 Traps == (ReuseWithLateSender \/ TRUE) /\ (ReuseWithQueuedStale \/ TRUE)
          /\ (ClientSaturated \/ TRUE) /\ (ServerSaturated \/ TRUE)
+         /\ (HintStaleActive \/ TRUE) /\ (HintStaleQueued \/ TRUE)
+\* witnesses of expired connections (instances with GenDeath)
+DeathTraps == (ExpiredSplit(17, "expired-data-low", TRUE) \/ TRUE) /\ (ExpiredSplit(18, "expired-data-high", FALSE) \/ TRUE)
 =============================================================================
